@@ -311,7 +311,7 @@ func MergeHeaders(src []*Header) (h *Header, reflinks [][]*Reference, err error)
 	h.GroupOrder = GroupUnspecified
 	for i, add := range src {
 		if i == 0 {
-			reflinks[i] = h.refs
+			reflinks[i] = append([]*Reference(nil), h.refs...)
 			continue
 		}
 		links := make([]*Reference, len(add.refs))
@@ -334,6 +334,13 @@ func MergeHeaders(src []*Header) (h *Header, reflinks [][]*Reference, err error)
 			links[id] = r
 		}
 		reflinks[i] = links
+	}
+	// A reference may have been replaced by a more complete one from a
+	// later source, so resolve every link through the merged header.
+	for _, links := range reflinks {
+		for j, r := range links {
+			links[j] = h.refs[h.seenRefs[r.name]]
+		}
 	}
 
 	return h, reflinks, nil
